@@ -1,4 +1,5 @@
 import RsslVerif.Model.IrTyping
+import RsslVerif.Gen.ElabTables
 /-!
 # The IR's typing rules for the extended expression language (ir/src/ir_expressions.rs `Expression::get_type`)
 
@@ -17,7 +18,9 @@ initialisers need to look inside.  `Env.others` gives the definition of `other i
   `Array(Modifier(const, float), 3)`); array types are hash-consed in Rust, so an environment must not define the same
   array twice (`Env.arraysCanonical`; the driver refuses such requests);
 * `void` — `TypeLayer::Void`;
-* `object` — any `TypeLayer::Object(_)` (outside the model: the elaboration answers `unsupported`).
+* `object` — any other `TypeLayer::Object(_)` (outside the model: the elaboration answers `unsupported`);
+* `resource kind elem` — a buffer / texture object with a subscript operator; only the subscript is modelled (its methods are
+  outside the model).
 
 Because of hash-consing `TypeId` equality is structural equality of these descriptions.
 
@@ -55,6 +58,9 @@ inductive OtherDef where
   | array (elem : Ty) (len : Nat)
   | void
   | object
+  /-- a resource that can be subscripted: `TypeLayer::Object(ObjectType::<kind>(elem))` with `kind` one of the variants listed
+      in `Gen.ElabTables.subscriptIndexWidth` (`Buffer`, `RWStructuredBuffer`, `Texture2D`, ...) -/
+  | resource (kind : String) (elem : Ty)
   deriving DecidableEq, Repr, Inhabited
 
 mutual
@@ -111,6 +117,16 @@ structure Env where
   /-- ids of local variables whose scope has ended: allocated in `variable_registry` but no longer found by name -/
   hidden : List Nat := []
   deriving Repr
+
+/-- `TypeRegistry::make_const` -/
+def makeConst (t : Ty) : Ty := ⟨{ t.mod with isConst := true }, t.layer⟩
+
+/-- the element type `get_type(ArraySubscript)` gives for a resource: `make_const(ty)` for the read-only kinds, `ty` for the
+    read-write kinds (tables re-extracted from ir_expressions.rs); `none` = `InvalidModule` -/
+def resourceElem (kind : String) (elem : Ty) : Option Ty :=
+  if RsslVerif.Gen.ElabTables.subscriptReadOnly.contains kind then some (makeConst elem)
+  else if RsslVerif.Gen.ElabTables.subscriptReadWrite.contains kind then some elem
+  else none
 
 /-- some slot occurs twice -/
 def hasDup {α : Type} [DecidableEq α] : List α → Bool
@@ -175,6 +191,10 @@ def typeOf (Γ : Env) : IExpr → Except String ETy
       | .other id =>
         match Γ.others[id]? with
         | some (.array elem _) => .ok elem.l
+        | some (.resource kind elem) =>
+          match resourceElem kind elem with
+          | some te => .ok te.l
+          | none => .error "ir_expressions.rs: InvalidModule (subscript of an object without subscript)"
         | _ => .error "ir_expressions.rs: InvalidModule (subscript of a non-array)"
       | _ => .error "ir_expressions.rs: InvalidModule (subscript of a non-array)"
   | .member e sid idx =>
@@ -245,6 +265,9 @@ inductive HasType (Γ : Env) : IExpr → ETy → Prop where
   | indexA {a i : IExpr} {t ti : ETy} {id len : Nat} {elem : Ty} :
       HasType Γ a t → HasType Γ i ti → t.ty.layer = .other id → Γ.others[id]? = some (.array elem len) →
       HasType Γ (.index a i) elem.l
+  | indexR {a i : IExpr} {t ti : ETy} {id : Nat} {kind : String} {elem te : Ty} :
+      HasType Γ a t → HasType Γ i ti → t.ty.layer = .other id → Γ.others[id]? = some (.resource kind elem) →
+      resourceElem kind elem = some te → HasType Γ (.index a i) te.l
   | member {e : IExpr} {t : ETy} {sid idx : Nat} {ms : List (String × Ty)} {m : String × Ty} :
       HasType Γ e t → t.ty.layer = .other sid → Γ.others[sid]? = some (.struct ms) → ms[idx]? = some m →
       HasType Γ (.member e sid idx) ⟨m.2, t.vt⟩
